@@ -66,6 +66,10 @@ def wrapper_row(owner, fn):
         if not names or names[0] != "self":
             fail(fn, "method without self")
         names = names[1:]
+    if owner and names:
+        fail(fn, f"{owner}.{fn.name}: positional parameters {names} besides self (the flags must be keyword-only)")
+    if not owner and a.kwonlyargs:
+        fail(fn, f"{fn.name}: keyword-only parameters in a module-level function")
     defaults = list(a.defaults)
     if len(defaults) != len(names):
         fail(fn, "positional parameter without default")
